@@ -15,6 +15,22 @@ def optInt : Option Int → String
   | none => "None"
   | some q => toString q
 
+/-- finite decimal of a dyadic rational, as Python's `repr(float)` prints small dyadics (`1.0`, `-0.375`) -/
+def showDyadic (q : Rat) : String :=
+  let neg := q < 0
+  let a := if neg then -q else q
+  let ip := a.floor.toNat
+  let rec digits (fuel : Nat) (r : Rat) (acc : String) : String :=
+    match fuel with
+    | 0 => acc
+    | fuel + 1 =>
+      if r == 0 then acc else
+      let r10 := r * 10
+      let dgt := r10.floor.toNat
+      digits fuel (r10 - dgt) (acc ++ toString dgt)
+  let frac := digits 40 (a - ip) ""
+  (if neg then "-" else "") ++ toString ip ++ "." ++ (if frac == "" then "0" else frac)
+
 def readMat (t : Toks) (r c : Nat) : (Nat → Nat → Rat) × Toks :=
   let (a, t) := t.rats (r * c)
   ((fun i j => a[i * c + j]!), t)
@@ -82,6 +98,25 @@ def step (t : Toks) : String :=
     let (κ, t) := readMat t n n
     let (labels, _) := t.nats n
     ratOut (objective κ labels.toList)
+  | "print" =>
+    -- same arguments as `fit`, then `m name_1 .. name_m` (m = 0: default names); lines joined by `⏎`
+    let (n, t) := t.nat
+    let (d, t) := t.nat
+    let (κ, t) := readMat t n n
+    let (X, t) := readMat t n d
+    let (maxClusters, t) := t.nat
+    let (maxDepth, t) := t.nat
+    let (minSplit, t) := t.nat
+    let (minLeaf, t) := t.nat
+    let (maxLeaves, t) := t.nat
+    let (nd, t) := t.nat
+    let (draws, t) := readDraws t nd ([], t)
+    let (m, t) := t.nat
+    let names := (t.toks.extract t.pos (t.pos + m))
+    let p : Params := ⟨maxClusters, maxDepth, minSplit, minLeaf, maxLeaves⟩
+    let s : FitState Rat := fit κ X n p draws
+    let name : Int → String := fun f => if m == 0 then s!"X[:, {f}]" else names[f.toNat]!
+    "⏎".intercalate (s.tree.printNode showDyadic name (s.tree.nNodes + 1) 0)
   | "fit" =>
     let (n, t) := t.nat
     let (d, t) := t.nat
